@@ -513,6 +513,27 @@ def rule_r4(chk):
     chk.ob("C20-R4", "simultaneous._invariants.Invariant.to_portable[generated anticipated shocks]", not bad,
            "quantities of kind ANTICIPATED_SHOCK_VALUE (and equations already rewritten to (u+ant_u)) are exported, and from_source "
            "introduces them again on import" if bad else "generated quantities are not exported as source", im.loc(tp))
+    # equations: the portable tuple is (kind, DYNAMIC text, STEADY text or None, ...): the writer is called on the dynamic equation with the
+    # steady one as its complement, and the reader restores them in the same roles
+    em = chk.repo.mod("irispie.equations")
+    etp = em.func("to_portable")
+    chk.saw(em, "to_portable")
+    eps = params(etp)
+    comps = [n for n in ast.walk(etp) if isinstance(n, (ast.ListComp, ast.GeneratorExp)) and isinstance(n.elt, ast.Call) and isinstance(n.elt.func, ast.Attribute)
+             and n.elt.func.attr == "to_portable"]
+    ok, detail = None, "comprehension over (dynamic, steady) pairs not recognised"
+    if len(comps) == 1 and len(eps) >= 2:
+        g = comps[0].generators[0]
+        if isinstance(g.iter, ast.Call) and dotted(g.iter.func) == "zip" and isinstance(g.target, ast.Tuple) and len(g.target.elts) == 2 and len(g.iter.args) == 2:
+            role = {unparse(t): unparse(a) for t, a in zip(g.target.elts, g.iter.args)}
+            recv = role.get(unparse(comps[0].elt.func.value))
+            arg = role.get(unparse(comps[0].elt.args[0])) if comps[0].elt.args else None
+            dyn = next((p_ for p_ in eps if "dynamic" in p_), eps[0])
+            ste = next((p_ for p_ in eps if "steady" in p_), eps[1])
+            ok = recv == dyn and arg == ste
+            detail = f"{unparse(comps[0].elt)} with the receiver from {recv} and the complement from {arg}" + ("" if ok else
+                     f": the tuple is written by the {recv.split('_')[0] if recv else '?'} equation, so the dynamic and steady texts change places in the portable form")
+    chk.ob("C20-R4", "equations.to_portable[dynamic writes, steady complements]", ok, detail, em.loc(comps[0]) if comps else em.loc(etp), sure=ok is not None)
     # model level
     sm = chk.repo.mod("irispie.simultaneous.main")
     tp, fp = sm.func("Simultaneous.to_portable"), sm.func("Simultaneous.from_portable")
@@ -640,6 +661,58 @@ def rule_r7(chk, rid="C20-R7"):
         chk.ok(rid, "simultaneous[stores into derived-slot inputs after construction]", "none", im.rel)
 
 
+def rule_r8(chk):
+    chk.rule("C20-R8", "one value per variant: in generate_steady_items (Databox.steady / Databox.zero) the arrays of the variants are stacked "
+             "along a new last axis, and the value of a non-time-series quantity (parameter, std) is read along THAT axis at the first "
+             "period - not along the period axis at the first variant (axis bookkeeping over the subscripts)", floor=2, shape_independent=True)
+    m = chk.repo.mod("irispie.simultaneous._steady_boxable_protocols")
+    f = m.func("generate_steady_items")
+    chk.saw(m, "generate_steady_items")
+    st = [n for n in ast.walk(f) if isinstance(n, ast.Assign) and isinstance(n.value, ast.Call) and (dotted(n.value.func) or "").endswith("stack")]
+    if len(st) != 1:
+        chk.undecided("C20-R8", "simultaneous._steady_boxable_protocols.generate_steady_items[stack]", "stacking of the per-variant arrays not recognised", m.loc(f))
+        return
+    kw = {k.arg: k.value for k in st[0].value.keywords}
+    axis = literal(kw["axis"]) if "axis" in kw and isinstance(kw["axis"], ast.Constant) else None
+    src = kw.get("arrays") or (st[0].value.args[0] if st[0].value.args else None)
+    from ..core import inline_locals
+    over_variants = src is not None and "self._variants" in unparse(inline_locals(f, src))
+    arr = unparse(st[0].targets[0])
+    chk.ob("C20-R8", "simultaneous._steady_boxable_protocols.generate_steady_items[stack]", (axis == 2 and over_variants) if axis is not None else None,
+           f"{arr} = stack(one array per variant, axis={axis}): axes (quantity, period, variant)", m.loc(st[0]), sure=True)
+    if axis != 2:
+        return
+    # follow the axes through `x = arr[i, :, :]`
+    roles = {arr: ["quantity", "period", "variant"]}
+    changed = True
+    while changed:
+        changed = False
+        for n in ast.walk(f):
+            if isinstance(n, ast.Assign) and isinstance(n.targets[0], ast.Name) and isinstance(n.value, ast.Subscript) and unparse(n.value.value) in roles \
+                    and n.targets[0].id not in roles:
+                idx = n.value.slice.elts if isinstance(n.value.slice, ast.Tuple) else [n.value.slice]
+                base = roles[unparse(n.value.value)]
+                if len(idx) == len(base):
+                    roles[n.targets[0].id] = [r for r, i in zip(base, idx) if isinstance(i, ast.Slice)]
+                    changed = True
+    reads = []
+    for n in ast.walk(f):
+        if isinstance(n, ast.Call) and (dotted(n.func) or "").endswith("unpack_singleton") and n.args:
+            for sub in ast.walk(n.args[0]):
+                if isinstance(sub, ast.Subscript) and unparse(sub.value) in roles:
+                    idx = sub.slice.elts if isinstance(sub.slice, ast.Tuple) else [sub.slice]
+                    base = roles[unparse(sub.value)]
+                    if len(idx) == len(base):
+                        kept = [r for r, i in zip(base, idx) if isinstance(i, ast.Slice)]
+                        reads.append((sub, kept, base))
+    if not reads:
+        chk.undecided("C20-R8", "simultaneous._steady_boxable_protocols.generate_steady_items[value per variant]", "read of the non-time-series value not recognised", m.loc(f))
+    for sub, kept, base in reads:
+        chk.ob("C20-R8", "simultaneous._steady_boxable_protocols.generate_steady_items[value per variant]", kept == ["variant"],
+               f"{unparse(sub)} on axes {base} keeps {kept}" + ("" if kept == ["variant"] else ": the list handed to unpack_singleton runs over periods of ONE variant, so every "
+                                                               "variant of the steady databox gets variant 0's parameter / std"), m.loc(sub), sure=True)
+
+
 def run(chk):
     chk.guard(rule_r1, chk)
     chk.guard(rule_r2, chk)
@@ -647,6 +720,7 @@ def run(chk):
     chk.guard(rule_r4, chk)
     chk.guard(rule_r5, chk)
     chk.guard(rule_r7, chk)
+    chk.guard(rule_r8, chk)
     from .. import gens
     gens.apply(chk, "C20-R6", {"simultaneous", "sequentials", "red_vars", "has_variants", "quantities", "equations", "attributes", "stackers"}, 15,
                "a generator consumed inside the loop over variants serves variant 0 only")
